@@ -7,6 +7,7 @@ import numpy as np
 from .common import ints, fhex
 
 PROP_FILE = "Properties/C03.v"
+GEN = ["GenC03"]
 RUN_FILES = ["Model/C03_run.v"]
 
 R_EARTH = 6370997.0
@@ -1022,14 +1023,27 @@ def run(ctx):
     for case, obs, f in zip(cases, obs_list, facts_all):
         ctx.count("class_" + case["tag"])
         ctx.count("mode_" + case["mode"])
+        if case.get("malformed"):
+            ctx.count("malformed_stream_cases")
+        if case["source"].get("dtype") == "float32":
+            ctx.count("float32_source_cases")
+        geo = case["target"] if case["mode"] == "swath_to_area" else case["source"]
+        ctx.count("crs_" + str(geo.get("proj", {}).get("proj")))
         for cfg in case["configs"]:
             nontriv = f["neigh"] > 0 and cfg is not case["configs"][0]
             ctx.case((case["id"], repr(case["target"])[:2000], case["radius"], case["k"], cfg_name(cfg)), nontrivial=nontriv,
-                     sample={"class": case["tag"], "mode": case["mode"], "radius": case["radius"], "k": case["k"],
-                             "config": cfg_name(cfg), "neighbours_found_by_plain_call": f["neigh"],
-                             "target": {kk: vv for kk, vv in case["target"].items() if kk in ("proj", "w", "h", "extent", "shape")}})
+                     sample={case["tag"]: "%s, %s" % (case["mode"], cfg_name(cfg)),
+                             "geometry": {kk: vv for kk, vv in geo.items() if kk in ("proj", "w", "h", "extent")},
+                             "sources": obs.get("S"), "targets": obs.get("T"), "radius_m": case["radius"], "k": case["k"],
+                             "source_dtype": case["source"].get("dtype", "float64"),
+                             "neighbours_found_by_plain_call": f["neigh"],
+                             "lost_under_reduction": len(f["lost_src"]) + len(f["lost_tgt"])})
             ctx.count("nprocs_%d" % cfg["nprocs"])
             ctx.count("reduce_%s" % cfg["reduce"])
+            ctx.count("segments_%s" % ("None" if cfg["segments"] is None else "1" if cfg["segments"] == 1 else
+                                       "rows+3" if cfg["segments"] > obs.get("rows", 0) else "rows" if cfg["segments"] == obs.get("rows") else str(cfg["segments"])))
+            if cfg.get("cache_target"):
+                ctx.count("lonlats_cached_before_call")
         if f["ties"]:
             ctx.count("tie_only_differences", f["ties"])
     ctx.traces = sum(f["runs"] for f in facts_all)
